@@ -192,6 +192,15 @@ func TestVerif_C11_Runtime(t *testing.T) {
 				// the request ended without ever entering its backend; it was sent after the
 				// previous generation had been seen serving, so this is not the update under
 				// test: recorded with its reason, the case is given up
+				if ec := kit.MsgClass(g.Err); k > 1 && (strings.Contains(ec, "connection refused") || strings.Contains(ec, "connection reset")) {
+					// ... unless the server's own port refused it after an update of this case
+					// had been applied: the listener that had been seen serving is gone, which
+					// only a restart of the server by that update explains (a loaded machine
+					// delays a dial to a listening socket, it does not refuse it)
+					r.Violation("httpserver-hot-update:request-after-update-refused-by-restarted-listener:option="+opt, map[string]interface{}{"option": opt, "generation_after_update": k - 1, "observed": g})
+					abandoned = true
+					break
+				}
 				r.Inconclusive(fmt.Sprintf("parked request ended before reaching its backend: err=%q status=%d backend=%q", kit.MsgClass(g.Err), g.Status, g.Backend))
 				abandoned = true
 			case <-time.After(30 * time.Second):
